@@ -26,7 +26,8 @@ EXPLANATION = (
     "function-call analyzer (every Expression child is analysed, so no call escapes use_function). Type inference over all programs is "
     "not decided."
     " ADDED LATER: R7/R9 the call analyzer and the typer (interprocedurally, through helper functions) visit every expression (T2); R8 each member expression of a structure literal is unified with the member's type; R10 the value of an assignment is unified with the base and with the last member step for every shape of the left-hand side; R5-UNIFICATION-LEAVES: is_like / can_be_concretization_of compare leaf types with ==, the alias-aware equality is used by the coercion relations only."
-    " ROUNDS 5-6: R5-EQUALS-STRUCTURAL: ValueType::equals compares every field of every composite variant (binding names free); relation tables are stored with canonical binding names.")
+    " ROUNDS 5-6: R5-EQUALS-STRUCTURAL: ValueType::equals compares every field of every composite variant (binding names free); relation tables are stored with canonical binding names."
+    " ROUND 9: R4-ARGUMENT-TYPES 'ends the check': on the MIR of use_function the iterator's next() is unreachable from the block that builds ArgumentTypeMismatch / ArgumentMissingAddress (a result carried round the loop would be overwritten).")
 
 RES = "alpha::resolver::"
 VT = "alpha::value_type::ValueType::"
